@@ -35,6 +35,9 @@ func c10Scenarios() []hpScenario {
 		if sc.MaxConnections > 0 {
 			sc.Name += fmt.Sprintf(" max_connections=%d", sc.MaxConnections)
 		}
+		if sc.EjectFirstHost {
+			sc.Name += " eject-first-host"
+		}
 		out = append(out, sc)
 	}
 	one := func(script ...string) []hpRequest { return []hpRequest{{Token: "t1", Script: script}} }
@@ -56,6 +59,13 @@ func c10Scenarios() []hpScenario {
 	add(hpScenario{Hosts: 2, RouteTimeoutMs: 1000, FailHosts: []int{0, 1}, Requests: one(upReply200)})
 	add(hpScenario{Hosts: 2, RouteTimeoutMs: 1000, FailHosts: []int{0}, RetryOn: true, Requests: one(upReply200)})
 	add(hpScenario{Hosts: 1, NoRoute: true, RouteTimeoutMs: 1000, Requests: one(upReply200)})
+	// a granted retry that finds no selectable host any more (the only host is ejected before the retry)
+	for _, th := range []uint32{0, 1, 2} {
+		for _, f := range []string{upReplyBusy, upClose} {
+			add(hpScenario{Hosts: 1, RouteTimeoutMs: 1000, MaxRetries: th, MaxRequests: th, RetryOn: true, NumRetries: 1, EjectFirstHost: true, Requests: one(f, upReply200)})
+			add(hpScenario{Hosts: 1, RouteTimeoutMs: 1000, MaxRetries: th, RetryOn: true, NumRetries: 1, EjectFirstHost: true, Sequential: true, Requests: two([]string{f, upReply200}, []string{upReply200})})
+		}
+	}
 	// two requests on one downstream connection
 	ok, silent, closeS, errS := []string{upReply200}, []string{upSilent}, []string{upClose}, []string{upReply5xx, upReply200}
 	for _, th := range []uint32{0, 1, 2} {
